@@ -340,7 +340,7 @@ func cmdCheck(argv []string) int {
 				}
 				r := byID[c.ID]
 				if len(r.Mismatch) > 0 || r.Panic != "" || r.Runs == 0 {
-					inconclusive = append(inconclusive, fmt.Sprintf("CO-SIMULATION MISMATCH %s: native trace %v (panic=%q) not among the %d traces predicted for inputs %v", c.ID, r.Mismatch, r.Panic, len(c.Expect), c.Inputs))
+					inconclusive = append(inconclusive, fmt.Sprintf("CO-SIMULATION MISMATCH %s: native trace %v (panic=%q) not among the %d traces predicted (first: %v) for inputs %v", c.ID, r.Mismatch, r.Panic, len(c.Expect), firstTrace(c.Expect), c.Inputs))
 				} else if r.Skipped == r.Runs {
 					inconclusive = append(inconclusive, fmt.Sprintf("co-simulation case %s: inputs violate the harness assumptions natively", c.ID))
 				} else {
@@ -580,4 +580,11 @@ func writeEvidence(spec PropSpec, tier string, seed int, st *Stats, results []*R
 	os.MkdirAll(filepath.Join(verifDir, "evidence"), 0755)
 	b, _ := json.MarshalIndent(ev, "", " ")
 	os.WriteFile(filepath.Join(verifDir, "evidence", spec.ID+".json"), b, 0644)
+}
+
+func firstTrace(ts [][]string) []string {
+	if len(ts) == 0 {
+		return nil
+	}
+	return ts[0]
 }
